@@ -9,7 +9,7 @@ git -C $WT checkout -q -- . && git -C $WT clean -qfd
 git -C $WT apply "$P" || { echo "patch does not apply"; exit 3; }
 cd /verif
 for i in $(seq -w 1 20); do
-  out=$(/venv/bin/python -m sa.run --property C$i --repo $WT --no-controls 2>&1)
+  out=$(timeout 300 /venv/bin/python -m sa.run --property C$i --repo $WT --no-controls 2>&1)
   rc=$?
   if [ $rc -ne 0 ]; then echo "== C$i rc=$rc"; echo "$out" | grep -v "^KNOWN-FINDING" | grep -E "^  C[0-9]+\.R|ANALYSIS|^      [a-z]" | cut -c1-${CUT:-260} | head -${HEADN:-12}; fi
 done
